@@ -161,7 +161,56 @@ func genC13Fix128(tier string) (map[string]string, error) {
 	return map[string]string{"satfix128": sb.String()}, nil
 }
 
+func genC15Fix64FMD(tier string) (map[string]string, error) {
+	var sb strings.Builder
+	sb.WriteString(numericHeader) // zzRound comes from the Fix128 file of the same package
+	for _, t := range fix64Types {
+		tierAttr := ""
+		if t.Signed {
+			tierAttr = " tier=thorough" // ~10 min of solver time (signed 64-bit wrap terms); UFix64 covers the shared wiring in quick
+		}
+		fmt.Fprintf(&sb, "\n//verif:harness property=C15 mode=int stubs=metering timeout=300%s\nfunc ZZ_C15_%s_MultiplyDivide() {\n", tierAttr, t.Name)
+		sb.WriteString(t.operand("x", "A"))
+		sb.WriteString(t.operand("y", "B"))
+		sb.WriteString(t.operand("z", "C"))
+		sb.WriteString("\tmode := zzChoice(4)\n")
+		sb.WriteString("\tout := zzCatch(func() any { return x.MultiplyDivide(nil, y, z, fix.RoundingMode(mode)) })\n")
+		sb.WriteString("\tif C.Sign() == 0 {\n\t\tzzAssert(\"div-by-zero\", out.PanicIsErr(\"DivisionByZeroError\"))\n\t\treturn\n\t}\n")
+		sb.WriteString("\texact := zzRound(new(big.Int).Mul(A, B), C, mode)\n")
+		fmt.Fprintf(&sb, "\tif exact.Cmp(%s) > 0 {\n\t\tzzAssert(\"overflow\", out.PanicIsErr(\"OverflowError\"))\n\t\treturn\n\t}\n", t.max())
+		if t.Signed {
+			fmt.Fprintf(&sb, "\tif exact.Cmp(%s) < 0 {\n\t\tzzAssert(\"underflow\", out.PanicIsErr(\"UnderflowError\"))\n\t\treturn\n\t}\n", t.min())
+		}
+		sb.WriteString("\tzzAssert(\"no-failure\", !out.Panicked)\n\tif out.Panicked {\n\t\treturn\n\t}\n")
+		fmt.Fprintf(&sb, "\tzzAssert(\"rounded-by-requested-rule\", %s.Cmp(exact) == 0)\n}\n", t.resultBig("out.Value"))
+	}
+	return map[string]string{"fix64fmd": sb.String()}, nil
+}
+
+// C16: conversions with a rounding rule (Fix128/UFix128 -> Fix64/UFix64)
+func genC16Rounding(tier string) (map[string]string, error) {
+	var sb strings.Builder
+	sb.WriteString(numericHeader) // zzPow10Big / zzFix128Big come from the conversion file
+	sb.WriteString(roundOracle)
+	for _, src := range fix128Types() {
+		for _, dst := range fix64Types {
+			fmt.Fprintf(&sb, "\n//verif:harness property=C16 mode=int stubs=metering timeout=120\nfunc ZZ_C16_%s_to_%s_WithRounding() {\n", src.Name, dst.Name)
+			sb.WriteString(src.operand("x", "A"))
+			sb.WriteString("\tmode := zzChoice(4)\n")
+			fmt.Fprintf(&sb, "\tout := zzCatch(func() any { return Convert%sWithRounding(nil, x, fix.RoundingMode(mode)) })\n", dst.Name)
+			sb.WriteString("\tt := zzRound(A, zzPow10Big(16), mode)\n")
+			fmt.Fprintf(&sb, "\tif zzOr(t.Cmp(%s) > 0, t.Cmp(%s) < 0) {\n\t\tzzAssert(\"out-of-range-fails\", out.PanicIsErr(\"OverflowError\") || out.PanicIsErr(\"UnderflowError\"))\n\t\treturn\n\t}\n", dst.max(), dst.min())
+			sb.WriteString("\tzzKnownFinding(\"C16-rounding-conversion-fails-when-rounding-to-zero\", zzAnd(A.Sign() != 0, t.Sign() == 0))\n")
+			sb.WriteString("\tzzAssert(\"no-failure\", !out.Panicked)\n\tif out.Panicked {\n\t\treturn\n\t}\n")
+			fmt.Fprintf(&sb, "\tzzAssert(\"rounded-by-requested-rule\", %s.Cmp(t) == 0)\n}\n", dst.resultBig("out.Value"))
+		}
+	}
+	return map[string]string{"rounding": sb.String()}, nil
+}
+
 func init() {
+	generators["C15"] = append(generators["C15"], genC15Fix64FMD)
+	generators["C16"] = append(generators["C16"], genC16Rounding)
 	generators["C15"] = append(generators["C15"], genC15Fix128)
 	generators["C13"] = append(generators["C13"], genC13Fix128)
 }
